@@ -573,7 +573,7 @@ func (k *Known) match(v Viol) *Finding {
 // ---------- replay + evidence
 
 func writeReplay(prop string, v Viol, res *Result) string {
-	dir := filepath.Join(verifDir, "replays", prop)
+	dir := filepath.Join(envOr("VERIF_REPLAY_DIR", filepath.Join(verifDir, "replays")), prop)
 	_ = os.MkdirAll(dir, 0o755)
 	name := fmt.Sprintf("%s-%s.json", nz(v.Case, "nocase"), sanitize(v.Class))
 	path := filepath.Join(dir, name)
@@ -667,9 +667,10 @@ func writeEvidence(plan Plan, res *Result, tier string, seed int64, wall float64
 		"wall_s":      wall,
 		"violations":  nviol,
 	}
-	_ = os.MkdirAll(filepath.Join(verifDir, "evidence"), 0o755)
+	evDir := envOr("VERIF_EVIDENCE_DIR", filepath.Join(verifDir, "evidence")) // scratch dir when a seeded change is evaluated
+	_ = os.MkdirAll(evDir, 0o755)
 	b, _ := json.MarshalIndent(ev, "", " ")
-	_ = os.WriteFile(filepath.Join(verifDir, "evidence", plan.Prop+".json"), b, 0o644)
+	_ = os.WriteFile(filepath.Join(evDir, plan.Prop+".json"), b, 0o644)
 	return len(res.Cases) >= 1
 }
 
